@@ -47,6 +47,7 @@ type Job struct {
 	GoInline        func(label string) bool
 	Threads         bool // tier 3: goroutines are symbolic threads with symbolic schedules
 	Preempt         int  // bound on preemptions per path (0: switch only when blocked)
+	CanonicalBlock  bool // at blocking points the first-created runnable thread continues (no fork); forks only at preemptions
 	GoInlineCalls   []string // goroutines whose body calls one of these functions run to completion when spawned
 	OnAlloc         func(it *Interp, ev AllocEvent)
 	OnBlockedSend   func(it *Interp, ch *ChanObj, v Value) bool
@@ -493,7 +494,10 @@ func harnessOverlay(pkgDirs []string) map[string][]byte {
 var harnessFuncRe = regexp.MustCompile(`(?m)^func (H_\w+)\(\)`)
 
 // SrcInsert: insert Text on a new line after the first line containing Anchor in File (repo-relative).
-type SrcInsert struct{ File, Anchor, Text string }
+type SrcInsert struct {
+	File, Anchor, Text string
+	All                bool // after every matching line
+}
 
 // harnessTestOverlay maps the replay drivers (*_test.go of the harness dirs).
 func harnessTestOverlay(pkgDirs []string) map[string][]byte {
